@@ -6,6 +6,7 @@ require github.com/jech/storrent v0.0.0
 
 require (
 	github.com/zeebo/bencode v1.0.0 // indirect
+	golang.org/x/net v0.28.0 // indirect
 	golang.org/x/sys v0.24.0 // indirect
 )
 
